@@ -340,7 +340,7 @@ def check(case):
                 elif op == 'set_dim_names':
                     m.set_dim_names(['dim%d_%d' % (step, d) for d in range(m.n_dim())] if arg % 3 else None)
                 elif op == 'set_parameter_names':
-                    m.set_parameter_names(['par%d_%d' % (step, k) for k in range(m.n_parameters())] if arg % 3 else None)
+                    m.set_parameter_names(['parameter %d renamed in step %d (long name)' % (k, step) for k in range(m.n_parameters())] if arg % 3 else None)
                 elif op == 'fix':
                     if not isinstance(m, chi.ReducedPopulationModel):
                         m = chi.ReducedPopulationModel(m)
